@@ -310,7 +310,9 @@ fn build_program(e: &mut Ent) -> (Prog, u32, usize) {
     let sp = if e.chance(1, 2) { 0xfff000 + 4 * e.below(0x300) } else { 0x5f0000 + 4 * e.below(0x3000) };
     er[7] = sp | e.upper_byte();
     let ccr = e.u8();
-    (Prog { image, er, ccr, pc: addrs[0], bus: e.bus_cfg() }, stop, max_depth)
+    let bus = e.bus_cfg();
+    image.extend(e.env_noise());
+    (Prog { image, er, ccr, pc: addrs[0], bus }, stop, max_depth)
 }
 
 /// run one program; Err(detail) on violation
